@@ -17,6 +17,13 @@
 (*   PackBuffer never fails, yields Pack()'s octets and works in place when    *)
 (*   the buffer is larger than the uncompressed length -- AMBIG: the true one  *)
 (*   (LenMsg) or the library's own prediction (ulen): larger than both.        *)
+(* spell (optional, 0 when absent): the Go value was built with its names and  *)
+(* strings in a non-canonical spelling (redundant backslashes, \D, \DD, \DDD of *)
+(* printable characters, a trailing backslash) after the recorder had seen the *)
+(* packer make the canonical spelling's octets of it given room: it is the     *)
+(* same abstract message, so every clause applies with the same LenMsg / LenRR *)
+(* -- except exactness (the statement restricts it to content that needs no   *)
+(* escapes) and the binding of the machines (which read canonical spellings).  *)
 (* Binding of the CompressLen machines: where everything outside names is      *)
 (* predicted exactly (ExactOutsideNames) the observed len and packlen must     *)
 (* equal LenImplMsg / PackImplMsg; a difference means the model does not       *)
@@ -28,6 +35,7 @@ VARIABLE l
 Ev == Trace[l]
 
 RRsOf(m) == m.an \o m.ns \o m.ar
+Spelled(e) == "spell" \in DOMAIN e /\ e.spell # 0
 
 ProbeStage(e, need) ==
   IF \E i \in 1..Len(e.probes) : e.probes[i].err = "ErrBuf" THEN "packbuffer-errbuf"
@@ -44,16 +52,16 @@ Stage(e) ==
   ELSE IF e.compress /\ e.packlen > LenMsg(m) THEN "compressed-longer"
   ELSE IF ~e.stable THEN "pack-unstable"               \* packed right after a failed Pack of the same names; packed again: same octets
   ELSE IF e.len < e.packlen THEN "underestimate"
-  ELSE IF PlainMsg(m) /\ e.len # e.packlen THEN "inexact"
+  ELSE IF ~Spelled(e) /\ PlainMsg(m) /\ e.len # e.packlen THEN "inexact"
   ELSE IF Len(e.rrlen) # Len(rrs) THEN "rr-count"
   ELSE IF \E i \in 1..Len(rrs) : e.rrlen[i][2] # LenRR(rrs[i]) THEN "rr-length"
   ELSE IF \E i \in 1..Len(rrs) : e.rrlen[i][1] < LenRR(rrs[i]) THEN "rr-underestimate"
-  ELSE IF \E i \in 1..Len(rrs) : PlainRR(rrs[i]) /\ e.rrlen[i][1] # LenRR(rrs[i]) THEN "rr-inexact"
+  ELSE IF ~Spelled(e) /\ \E i \in 1..Len(rrs) : PlainRR(rrs[i]) /\ e.rrlen[i][1] # LenRR(rrs[i]) THEN "rr-inexact"
   ELSE ProbeStage(e, Max(LenMsg(m), e.ulen))
 
 ModelOK(e) ==
   LET m == e.msg IN
-  Packable(m) /\ e.packed /\ ExactOutsideNames(m) =>
+  Packable(m) /\ e.packed /\ ExactOutsideNames(m) /\ ~Spelled(e) =>
     /\ e.packlen = PackImplMsg(m, e.compress)
     /\ e.len = LenImplMsg(m, e.compress)
 
